@@ -377,3 +377,6 @@ mod tests {
         test_ring_buf(buf);
     }
 }
+
+#[cfg(futures_intrusive_verif)]
+include!(concat!(env!("FI_VERIF_INC"), "/ring_buffer.rs"));
